@@ -145,10 +145,13 @@ def make_grid(min_: Number, max_: Number, step: Number) -> Iterator[Number]:
         max_:  maximum value of grid
         step:  grid step size
     """
-    x = min_
-    while x <= max_:
-        yield x
-        x += step
+    if max_ < min_:
+        return
+    # number of steps; the small offset absorbs round-off in the quotient
+    # (accumulating x += step loses the end point of e.g. (0, 2, 0.1))
+    num_steps = int((max_ - min_) / step + 1e-9)
+    for i in range(num_steps + 1):
+        yield min_ + i * step
 
 
 def generate_combinations(interactions: Iterable[T]) -> List[List[T]]:
